@@ -152,6 +152,7 @@ Section Run.
 
   Lemma trad_inv fp k cur pl rest log o :
     runT fp k cur pl rest = (log, o) ->
+    (fillSegmentQueue fp cur pl = FillEnd /\ log = [] /\ o = OEOS) \/
     (exists e, fillSegmentQueue fp cur pl = FillErr e /\ log = [] /\ o = e) \/
     (exists v pos seg, fillSegmentQueue fp cur pl = FillOk v pos seg /\ res (sg_uri seg) = false /\
                        log = [] /\ o = OErrResolve) \/
@@ -168,6 +169,7 @@ Section Run.
       match fillSegmentQueue fp cur pl with
       | FillErr o => ([], o)
       | FillPanic => ([], OPanic)
+      | FillEnd => ([], OEOS)
       | FillOk v segPos seg =>
           if negb (res (sg_uri seg)) then ([], OErrResolve)
           else match sentinel pl segPos with
@@ -183,10 +185,11 @@ Section Run.
                end
       end) as E by (destruct rest; reflexivity).
     rewrite E in H. clear E.
-    destruct (fillSegmentQueue fp cur pl) as [e| |v pos seg] eqn:Hf.
-    - injection H as <- <-. left. eauto.
+    destruct (fillSegmentQueue fp cur pl) as [e| | |v pos seg] eqn:Hf.
+    - injection H as <- <-. right. left. eauto.
     - exfalso. exact (fill_no_panic _ _ _ Hf).
-    - right. destruct (res (sg_uri seg)) eqn:Hr; cbn [negb] in H.
+    - injection H as <- <-. left. auto.
+    - right. right. destruct (res (sg_uri seg)) eqn:Hr; cbn [negb] in H.
       2:{ injection H as <- <-. left. exists v, pos, seg. auto. }
       right. exists v, pos, seg. split; [reflexivity|]. split; [exact Hr|].
       pose proof (fill_ok_inv _ _ _ _ _ _ Hf) as [Hb _].
@@ -223,6 +226,7 @@ Section Run.
   Proof.
     induction rest as [|pl1 rest IH]; intros k cur pl log o m Hat Hrun Hm;
       apply trad_inv in Hrun;
+      (destruct Hrun as [[_ [-> _]]|Hrun]; [apply tt_nil|]);
       destruct Hrun as [[e [Hf [-> ->]]]|[[v [pos [seg [Hf [Hr [-> ->]]]]]]|[v [pos [seg [Hf [Hr Hc]]]]]]];
       try apply tt_nil;
       pose proof (Hm _ _ _ Hf) as <-;
@@ -245,6 +249,9 @@ Section Run.
       match nth_error h (S k) with
       | None => l2 = [EvPlaylist (S k) false] /\ o = OServerGone
       | Some pl' =>
+          if Endlist pl' && (m + 1 =? MediaSequence pl' + len (Segments pl'))
+          then l2 = [EvPlaylist (S k) false] /\ o = OEOS   (* ENDLIST, and m was its last segment *)
+          else
           if (m + 1 <? MediaSequence pl') || (MediaSequence pl' + len (Segments pl') <=? m + 1)
           then l2 = [EvPlaylist (S k) false] /\ o = OErrNext
           else if negb (Endlist pl') &&
@@ -260,7 +267,9 @@ Section Run.
   Lemma trad_head_nonempty fp k v pl' rest' l' o :
     runT fp k (Some v) pl' rest' = (l', o) ->
     (l' = [] /\
-     ((o = OErrNext /\ (v + 1 < MediaSequence pl' \/ MediaSequence pl' + len (Segments pl') <= v + 1)) \/
+     ((o = OEOS /\ ended_after v pl') \/
+      (o = OErrNext /\ (v + 1 < MediaSequence pl' \/ MediaSequence pl' + len (Segments pl') <= v + 1) /\
+       ~ ended_after v pl') \/
       (o = OErrTooLate /\ MediaSequence pl' <= v + 1 < MediaSequence pl' + len (Segments pl') /\
        Endlist pl' = false /\ clientLiveMaxDistanceFromEnd < MediaSequence pl' + len (Segments pl') - (v + 1)) \/
       (o = OErrResolve /\ exists seg', fillSegmentQueue fp (Some v) pl' = FillOk (v + 1) (v + 1 - MediaSequence pl') seg' /\
@@ -270,9 +279,12 @@ Section Run.
                      l' = EvSegment k (v + 1 - MediaSequence pl') (v + 1) seg' :: l3).
   Proof.
     intros Hrun. apply trad_inv in Hrun.
+    destruct Hrun as [[Hfe [-> ->]]|Hrun].
+    { left. split; [reflexivity|]. left. split; [reflexivity|].
+      apply fill_end_inv in Hfe. destruct Hfe as [c [E Hea]]. injection E as <-. exact Hea. }
     destruct Hrun as [[e [Hf [-> ->]]]|[[v' [pos [seg [Hf [Hr [-> ->]]]]]]|[v' [pos [seg [Hf [Hr Hc]]]]]]].
-    - left. split; [reflexivity|]. apply fill_err_inv in Hf. destruct Hf as [[-> H]|[-> H]]; auto.
-    - left. split; [reflexivity|]. right. right. split; [reflexivity|].
+    - left. split; [reflexivity|]. right. apply fill_err_inv in Hf. destruct Hf as [[-> H]|[-> H]]; auto.
+    - left. split; [reflexivity|]. right. right. right. split; [reflexivity|].
       pose proof (fill_ok_inv _ _ _ _ _ _ Hf) as [Hb [Hs [Hv [Hc _]]]].
       assert (pos = v + 1 - MediaSequence pl') as -> by lia.
       assert (v' = v + 1) as -> by lia. eauto.
